@@ -42,9 +42,13 @@ def main():
         j = int(sys.argv[sys.argv.index('-j') + 1])
         args = [a for a in args if a != str(j)]
     items = []
+    basedir = '/tmp/wt'
+    if '--base' in sys.argv:
+        basedir = sys.argv[sys.argv.index('--base') + 1]
+        args = [a for a in args if a != basedir]
     if wt:
-        for P in sorted(os.listdir('/tmp/wt')):
-            d = '/tmp/wt/%s/out' % P
+        for P in sorted(os.listdir(basedir)):
+            d = '%s/%s/out' % (basedir, P)
             if not os.path.isdir(d):
                 continue
             for k in sorted(os.listdir(d)):
